@@ -110,6 +110,10 @@ def configs(U, quick):
             [{W: expr_dir(dV)}],
         )
     )
+    # tuples of distinct same-shape coefficients, listed in and out of creation order (w was created before f and g)
+    cf.append(("d/d(w,f)[(dv,g)]", lambda F: ufl.derivative(F, (w, f), (dv, g)), [{w: expr_dir(dv), f: expr_dir(g)}]))
+    cf.append(("d/d(f,w)[(dv,g)]", lambda F: ufl.derivative(F, (f, w), (dv, g)), [{f: expr_dir(dv), w: expr_dir(g)}]))
+    cf.append(("d/d(g,f,w)[(dv,w,2*dv)]", lambda F: ufl.derivative(F, (g, f, w), (dv, w, 2 * dv)), [{g: expr_dir(dv), f: expr_dir(w), w: expr_dir(2 * dv)}]))
     cf.append(("d/d(w,W)[(dv,dV)]", lambda F: ufl.derivative(F, (w, W), (dv, dV)), [{w: expr_dir(dv), W: expr_dir(dV)}]))
     cf.append(("d/d(w,W)[dM]", lambda F: ufl.derivative(F, (W, w), dM), [{W: expr_dir(ufl.as_vector([dM[0], dM[1]])), w: expr_dir(dM[2])}]))
     cf.append(("d/dM[dM]", lambda F: ufl.derivative(F, Mx, dM), [{Mx: expr_dir(dM)}]))
